@@ -123,7 +123,7 @@ def expect_error(ctx, cls, rel, args, out, w):
 
 
 def read_dmat(path):
-	rows = list(csv.reader(io.StringIO(path.read_text(), newline='')))
+	rows = list(csv.reader(io.StringIO(open(path, newline='').read(), newline='')))
 	return rows[0][1:], [r[0] for r in rows[1:]], [[float(x) for x in r[1:]] for r in rows[1:]]
 
 
@@ -221,7 +221,7 @@ def run_shard(sh, ctx):
 				if code != 0:
 					ctx.violation('matching-parameters-refused:query files', f'query with genome files exited {code}: {se[-150:]} {exc}', w)
 				else:
-					rows = list(csv.DictReader(io.StringIO(o.read_text(), newline='')))
+					rows = list(csv.DictReader(io.StringIO(open(o, newline='').read(), newline='')))
 					for qi, row in zip(Q, rows):
 						dmin = min(env.dist(qi, ri, Aeff) for ri in R)
 						if float(np.float32(row['closest.distance'])) != dmin:
